@@ -186,9 +186,12 @@ def Variants.set : Variants → Nat → String → Tracer → Variants
   | .present n' t' r, i + 1, n, t => .present n' t' (r.set i n t)
 
 /-- `while self.variants.len() <= idx { self.variants.push(None) }`, `k` = number of slots to add -/
+def Variants.nones : Nat → Variants
+  | 0 => .nil
+  | k + 1 => .absent (Variants.nones k)
+
 def Variants.padNone : Variants → Nat → Variants
-  | .nil, 0 => .nil
-  | .nil, k + 1 => .absent (Variants.padNone .nil k)
+  | .nil, k => Variants.nones k
   | .absent r, k => .absent (r.padNone k)
   | .present n t r, k => .present n t (r.padNone k)
 
